@@ -11,7 +11,7 @@ CLAIMED = {
    note=BASE_NOTE + 'Values are modelled as integers with decidable equality; the Hash impl of the value type is the Section variable hash64 (SipHash-1-3 of the real types is modelled in Base/Sip.v and compared byte-for-byte through the buffers).',
    technique=TECH),
  'C03': dict(
-   text='Theorems for every prefix width, slot count, history (with the documented side condition that get_mut writes keep the key): binary search returns the element or the unique insertion point on every sorted prefix, every operation refines a bounded strictly-ascending list (bound = min(slots, largest count the prefix can record)), the slice view is exactly the members in strictly ascending order in every reachable state; the specification itself is proved to be a finite map keyed by the order key (insert/remove/get_mut touch exactly the addressed key, never overwrite, keep the list ascending, move the length by one) on every ascending list and on the members of every reachable state, and composed with the refinement into lookup-after-mutation clauses on the concrete model (insert/remove/take/get_mut change what get answers for the touched key only). Model tied to the crate on every run (4 widths, 4 value types incl. one whose order ignores part of the value, exhaustive small scope, single steps from every sorted array up to length 8/16).',
+   text='Theorems for every prefix width, slot count, history (with the documented side condition that get_mut writes keep the key): binary search returns the element or the unique insertion point on every sorted prefix, every operation refines a bounded strictly-ascending list (bound = min(slots, largest count the prefix can record)), the slice view is exactly the members in strictly ascending order in every reachable state; the specification itself is proved to be a finite map keyed by the order key (insert/remove/get_mut touch exactly the addressed key, never overwrite, keep the list ascending, move the length by one) on every ascending list and on the members of every reachable state, and composed with the refinement into lookup-after-mutation clauses on the concrete model (insert/remove/take/get_mut change what get answers for the touched key only; insert accepted iff absent and below min(slots, prefix max); from any invariant state exactly bound-count further distinct values fit, by induction over the list). Model tied to the crate on every run (4 widths, 4 value types incl. one whose order ignores part of the value, exhaustive small scope, single steps from every sorted array up to length 8/16).',
    note=BASE_NOTE + 'The unsafe ptr::copy is modelled as an unchecked memmove over a flat cell memory containing the guard regions.',
    technique=TECH),
  'C11': dict(
